@@ -166,3 +166,21 @@ CHECKS["C12"] = {
                     "an octagon answer that needs integer tightening beyond the rational closure is classified under a separate tag (<mode>_..._tightening)"],
     "min_nontrivial_frac": 0.1,
 }
+
+ARR_Q = ["aa_int", "aa_sdbm", "aa_bool_int", "as_disint", "as_sdbm", "as_bool_int"]
+CHECKS["C14"] = {
+    "jobs": [job("h_fwd-" + d, 700, 2, 12000, 4, fuzz_secs=300, fuzz_procs=2) for d in ARR_Q],
+    "rule": "the C01 program generator with array statements weighted up (array_init of every array in the entry block most of the time, array_init, "
+            "weak stores at constant / aligned symbolic (es*v) / arbitrary symbolic indices, strong stores only on single-cell arrays, store_range, "
+            "array_assign, loads; element size = byte width of the scalars, 4 or 8) over array_adaptive<interval|split_dbm|flat-bool+interval> and "
+            "array_smashing<dis_interval|split_dbm|flat-bool+interval>, all array_adaptive parameters (is_smashable, smash_at_nonzero_offset, "
+            "max_smashable_cells, max_array_size) and zones parameters decoded from the tape; loops and branches give joins and widenings of array "
+            "states; 4-12 concrete executions per program in a byte-offset cell model; after every statement (in particular after every load) the "
+            "concrete scalar state must be a member of the propagated invariant and a reached state is never bottom; non-trivial = a load whose "
+            "result was checked against a non-top invariant, in a program with a symbolic-index load or a loop/branch/unstructured shape; distinct = "
+            "hash of CFG+parameters",
+    "assumptions": PROG_ASSUME + ["a load of a cell that was never written on that execution is outside the model (property C14's own wording: 'a value that a cell can hold')",
+                                 "element size equals the byte width of the loaded/stored scalar (type_checker.hpp TODO, array_adaptive ghost variables)",
+                                 "is_strong_update=true is only passed for single-cell arrays (cfg.hpp: the flag is the client's knowledge that the store overwrites the array)"],
+    "min_nontrivial_frac": 0.05,
+}
